@@ -83,8 +83,12 @@ func GenConfig(r Rander, kind string, nops int) *Config {
 				}
 			}
 		}
-		for _, cmd := range seq {
+		hold := r.Intn(3) * r.Range(5, 40) // a third of the histories hold each state for a while
+		for i, cmd := range seq {
 			k := Ctrl{After: at, Target: t, Cmd: cmd}
+			if i > 0 {
+				k.Wait = hold
+			}
 			if cmd == flush || cmd == invalidate {
 				k.Addrs = filter
 			}
@@ -135,4 +139,26 @@ func ShrinkConfigs(c *Config) []*Config {
 		out = append(out, &d)
 	}
 	return out
+}
+
+// ContendedConfig is a directed configuration: two drivers competing for one slow
+// memory over one connection, outgoing buffers deeper than the window drains, so
+// sends go into non-empty buffers while the connection sleeps behind a full
+// destination, and both senders are regularly asleep behind it.
+func ContendedConfig(r Rander, kind string, nops int) *Config {
+	c := GenConfig(r, kind, nops)
+	c.PortBuf = 2
+	c.Window = 4
+	c.MemWidth = 1
+	c.MemLat = r.Range(6, 14)
+	c.DriverMHz = 1000
+	// the destination stops retrieving for a while (Pause ... Enable) so that both
+	// senders pile up behind a full incoming buffer and the connection goes to sleep
+	top := map[string]string{"ideal": "MemCtrl", "wb": "L2", "banked": "Mem", "wt": "L1", "wtwb": "L1", "dram": "DRAM", "wbdram": "L2", "vm": "L1"}[kind]
+	c.Ctrl = []Ctrl{{After: r.Range(1, 3), Target: top, Cmd: 0}, {After: 0, Target: top, Cmd: 2, Wait: r.Range(20, 60)}}
+	c.Ops2 = nil
+	for i := 0; i < nops; i++ {
+		c.Ops2 = append(c.Ops2, Op{Write: r.Chance(1, 2), Addr: uint64(64*(40+i%9)) + uint64(r.Intn(16))*4, Val: uint32(r.U64())})
+	}
+	return c
 }
